@@ -65,6 +65,36 @@ def f32ok(a, b):
     return False
 
 
+def annotate_uninterpreted(js, rng):
+    """Plain primitives of the schema re-spelled as {"type": p, "logicalType": <something not interpreted for p>}."""
+    BAD = {"int": ["x-acme-token", "decimal", "timestamp-micros", "uuid"], "long": ["x-acme-token", "date", "time-millis", "decimal"],
+           "string": ["x-acme-token", "decimal", "date"], "bytes": ["x-acme-token", "uuid", "date"],
+           "float": ["x-acme-token", "decimal"], "double": ["x-acme-token", "timestamp-millis"], "boolean": ["x-acme-token"]}
+
+    def walk(n):
+        if isinstance(n, str):
+            if n in BAD and rng.random() < 0.4:
+                out = {"type": n, "logicalType": rng.choice(BAD[n])}
+                if out["logicalType"] == "decimal":
+                    out["precision"] = 4
+                return out
+            return n
+        if isinstance(n, list):
+            return [walk(b) for b in n]
+        if isinstance(n, dict):
+            out = dict(n)
+            t = n.get("type")
+            if t in ("record", "error"):
+                out["fields"] = [dict(f, type=walk(f["type"])) for f in n.get("fields", [])]
+            elif t == "array":
+                out["items"] = walk(n["items"])
+            elif t == "map":
+                out["values"] = walk(n["values"])
+            return out
+        return n
+    return walk(copy.deepcopy(js))
+
+
 def scramble(x):
     """Edit a result in place, everywhere."""
     if isinstance(x, dict):
@@ -116,8 +146,17 @@ def one_case(sh, fa, SRE, rng, case, drop_bytes_default_fields=False):
     form = rng.choice(["raw", "raw", "parsed_reader", "parsed_both", "parsed_writer"])
     sh.count("schema_form_" + form)
 
+    # the writer's schema may carry logicalType annotations nobody interprets (unknown names, known
+    # names on the wrong underlying type): they are ignored, the value is resolved as a plain one
+    wlib = wjs
+    if rng.random() < 0.2:
+        wlib = annotate_uninterpreted(wjs, rng)
+        if wlib != wjs:
+            sh.count("writer_with_uninterpreted_logical_types")
+            info["writer_as_given"] = wlib
+
     def read_sl():
-        w = copy.deepcopy(wjs)
+        w = copy.deepcopy(wlib)
         r = copy.deepcopy(rjs)
         if form in ("parsed_writer", "parsed_both"):
             w = fa.parse_schema(w)
